@@ -20,7 +20,8 @@ abbrev Hash := Nat
 
 /-- the payload of a Go `node` (without the pointers) -/
 structure Info where
-  hash : Hash
+  /-- a `Hash`; declared `Nat` so that `omega` sees comparisons of hashes -/
+  hash : Nat
   number : Nat
   arrival : Nat
   primary : Bool
@@ -38,6 +39,9 @@ def Node.info : Node → Info
 
 def Node.children : Node → List Node
   | .mk _ cs => cs
+
+@[simp] theorem Node.info_mk (i : Info) (cs : List Node) : (Node.mk i cs).info = i := rfl
+@[simp] theorem Node.children_mk (i : Info) (cs : List Node) : (Node.mk i cs).children = cs := rfl
 
 /-- induction principle used for every proof about forests -/
 theorem forest_ind {P : Forest → Prop} (nil : P [])
@@ -101,7 +105,8 @@ def addChildF (ph : Hash) (c : Node) : Forest → Forest
     else if occF ph cs then .mk i (addChildF ph c cs) :: rest
     else .mk i cs :: addChildF ph c rest
 
-def Node.addChild (ph : Hash) (c : Node) : Node → Node
+def Node.addChild (t : Node) (ph : Hash) (c : Node) : Node :=
+  match t with
   | .mk i cs => if i.hash = ph then .mk i (cs ++ [c]) else .mk i (addChildF ph c cs)
 
 /-- `node.prune(finalised, pruned)` run over a slice of nodes (the repaired code ranges over a copy of
@@ -276,11 +281,15 @@ def lcaWalk : List Info → List Info → Option Hash
     else lcaWalk xs ys
   | _, _ => none
 
+/-- first loop of `lowestCommonAncestor`: the higher node climbs `diff` parents (`none` = panic), then the
+    lock-step walk -/
+def lcaAligned (uh ul : List Info) (diff : Nat) : Option Hash :=
+  if uh.length ≤ diff then none else lcaWalk (uh.drop diff) ul
+
 /-- `lowestCommonAncestor(aNode, bNode)` on the parent chains; `none` = panic -/
 def lcaNodes (ua ub : List Info) (a b : Info) : Option Hash :=
-  let (uh, ul, hn, ln) := if a.number > b.number then (ua, ub, a.number, b.number) else (ub, ua, b.number, a.number)
-  let diff := hn - ln
-  if uh.length ≤ diff then none else lcaWalk (uh.drop diff) ul
+  if a.number > b.number then lcaAligned ua ub (a.number - b.number)
+  else lcaAligned ub ua (b.number - a.number)
 
 inductive LcaRes where
   | ok (h : Hash) | notFound | panic
@@ -345,6 +354,9 @@ deriving DecidableEq, Repr, Inhabited
 
 def Block.info (b : Block) : Info := ⟨b.hash, b.number, b.arrival, b.primary⟩
 
+/-- the block made of a node payload and the hash of the node it hangs under -/
+def Info.block (i : Info) (p : Hash) : Block := ⟨i.hash, p, i.number, i.arrival, i.primary⟩
+
 /-- the last finalised block and the blocks added below it (any order) -/
 structure Spec where
   root : Info
@@ -377,6 +389,10 @@ def ancestors (s : Spec) (h : Hash) : List Hash := h :: (s.chain h).map (·.pare
 def isAnc (s : Spec) (a d : Hash) : Prop := a ∈ s.ancestors d
 
 instance (s : Spec) (a d : Hash) : Decidable (s.isAnc a d) := by unfold isAnc; infer_instance
+
+/-- the chain of blocks from the ancestor `a` down to `d`, `a` first -/
+def pathDown (s : Spec) (a d : Hash) : List Hash :=
+  a :: ((s.ancestors d).takeWhile (fun x => decide (x ≠ a))).reverse
 
 /-- payload of a held block -/
 def infoOf (s : Spec) (h : Hash) : Option Info :=
@@ -415,7 +431,7 @@ end Spec
 /-- the flat view of a forest whose top-level nodes have parent `p` (pre-order) -/
 def blocksF (p : Hash) : Forest → List Block
   | [] => []
-  | .mk i cs :: rest => ⟨i.hash, p, i.number, i.arrival, i.primary⟩ :: (blocksF i.hash cs ++ blocksF p rest)
+  | .mk i cs :: rest => i.block p :: (blocksF i.hash cs ++ blocksF p rest)
 
 def specOfNode (n : Node) : Spec := ⟨n.info, blocksF n.info.hash n.children⟩
 
